@@ -676,8 +676,23 @@ def r9(ctx, retsets):
                   key="C14.R9:%s:%d" % (fname, k))
 
 
+def report_interface(pdb):
+    """the rules on Error Reports are written for rtr_send_error_pdu(socket, erroneous pdu, its length, code, text, text length) and the
+    two wrappers that hand exactly these on; with another interface the argument positions no longer mean what the rules assume"""
+    f = pdb.fn("rtr_send_error_pdu")
+    if len(f.params) != 6:
+        raise AnalysisBroken("rtr_send_error_pdu now takes %d parameters: the Error Report rules are written for (socket, erroneous pdu, length, "
+                             "code, text, text length)" % len(f.params))
+    h = pdb.fn("rtr_send_error_pdu_from_host")
+    fw = h.calls("rtr_send_error_pdu")
+    if not fw or any(len(c.args) != 6 for c in fw):
+        raise AnalysisBroken("the Error Report helpers were rearranged: rtr_send_error_pdu_from_host no longer hands (socket, copy, length, code, text, "
+                             "text length) to rtr_send_error_pdu - the rules on what is converted and forwarded are written for that interface")
+
+
 def check(ctx):
     retsets = flow.return_sets(ctx.pdb)
+    report_interface(ctx.pdb)
     r1(ctx)
     r2_r3(ctx)
     r4(ctx)
